@@ -131,9 +131,10 @@ func (m *mergeFields) traverseNode(node resolve.Node) {
 // splitFieldsWithOwnAuthorizationRule handles `{ secret ... on User { secret } }` on an abstract parent when the
 // conditioned occurrence (User.secret) has an authorization rule that the unconditioned one (Node.secret)
 // does not carry under the same coordinate. Merging would drop the rule together with the conditioned field.
-// Instead, every conditioned field of that name is kept for its type (with the unconditioned selection merged in,
-// moved next to the unconditioned field to keep the response key order) and the unconditioned field is
-// restricted to the remaining possible types, so each object still renders the key exactly once.
+// Instead, every conditioned field of that name is kept for its type (with the unconditioned selection merged in
+// behind its own, so that its own FieldInfos win the later merges; moved next to the unconditioned field to keep
+// the response key order) and the unconditioned field is restricted to the remaining possible types, so each
+// object still renders the key exactly once.
 func (m *mergeFields) splitFieldsWithOwnAuthorizationRule(n *resolve.Object) {
 	if len(n.PossibleTypes) == 0 {
 		return
@@ -199,12 +200,38 @@ func (m *mergeFields) splitFieldsWithOwnAuthorizationRule(n *resolve.Object) {
 	}
 }
 
-// hasOwnAuthorizationRule reports whether field is authorized under a coordinate that other does not enforce
+// hasOwnAuthorizationRule reports whether field - or a field selected below it under the same response keys as in
+// other - is authorized under a coordinate that its counterpart in other does not enforce, e.g. `profile { secret }`
+// where User.profile returns a narrower type than Node.profile and only UserProfile.secret carries a rule
 func (m *mergeFields) hasOwnAuthorizationRule(field, other *resolve.Field) bool {
-	if field.Info == nil || !field.Info.HasAuthorizationRule {
+	if field.Info != nil && field.Info.HasAuthorizationRule {
+		if other.Info == nil || !other.Info.HasAuthorizationRule || other.Info.ExactParentTypeName != field.Info.ExactParentTypeName {
+			return true
+		}
+	}
+	fieldObject, otherObject := m.objectOf(field.Value), m.objectOf(other.Value)
+	if fieldObject == nil || otherObject == nil {
 		return false
 	}
-	return other.Info == nil || !other.Info.HasAuthorizationRule || other.Info.ExactParentTypeName != field.Info.ExactParentTypeName
+	for _, child := range fieldObject.Fields {
+		for _, otherChild := range otherObject.Fields {
+			if bytes.Equal(child.Name, otherChild.Name) && m.hasOwnAuthorizationRule(child, otherChild) {
+				return true
+			}
+		}
+	}
+	return false
+}
+
+// objectOf returns the object a field value resolves to, looking through lists
+func (m *mergeFields) objectOf(node resolve.Node) *resolve.Object {
+	switch n := node.(type) {
+	case *resolve.Object:
+		return n
+	case *resolve.Array:
+		return m.objectOf(n.Item)
+	}
+	return nil
 }
 
 func (m *mergeFields) canMergeScalars(left, right *resolve.Field) bool {
